@@ -1,6 +1,11 @@
 import sys, os, argparse
 sys.path.insert(0, os.path.dirname(os.path.dirname(os.path.abspath(__file__))))
 sys.setrecursionlimit(20000)
+# second-opinion sampling rate (gosym/solver.py): every n-th decided query also goes to z3 4.8.12 and cvc5
+if 'VERIF_XSOLVER' not in os.environ:
+    _tier = os.environ.get('VERIF_TIER', 'quick')
+    if '--tier' in sys.argv[:-1]: _tier = sys.argv[sys.argv.index('--tier') + 1]
+    os.environ['VERIF_XSOLVER'] = '40' if _tier == 'thorough' else '400'
 from gosym import driver
 from checks import props
 
